@@ -8,7 +8,9 @@
 (*   pr    {req, ret}       a read call (-2 fault, -3 time-out)            *)
 (*   pmret {res, txd, rxleft, line, direct}  direct = decoding of the line *)
 (* C20: one port set-up per segment                                        *)
-(*   setup {ctor, prior, timeout_ms, fail}; dev {call, ok}; setupret {...} *)
+(*   setup {ctor, prior, timeout, fail}; dev {call, ok}; setupret {...}    *)
+(*   (time-outs are recorded as text 'seconds.nanoseconds': they can       *)
+(*   exceed TLC's 32-bit integers)                                         *)
 (***************************************************************************)
 EXTENDS Serial, TraceBase
 
@@ -16,7 +18,7 @@ EXTENDS Serial, TraceBase
 VARIABLES l, m, rx, wire, txd, consumed, nreads, fault, su, failed
 vars == <<l, m, rx, wire, txd, consumed, nreads, fault, su, failed>>
 
-NoSetup == [ctor |-> "", timeout_ms |-> 0]
+NoSetup == [ctor |-> "", timeout |-> ""]
 Init == l = 1 /\ m = NoReply /\ rx = <<>> /\ wire = <<>> /\ txd = <<>> /\ consumed = 0 /\ nreads = 0 /\ fault = FALSE /\ su = NoSetup /\ failed = FALSE
 
 E == Rec[l]
@@ -57,7 +59,7 @@ PMRet ==
     /\ UNCHANGED <<m, rx, wire, txd, consumed, nreads, fault, su, failed>>
 
 SetupEv == /\ IsEvent("setup")
-           /\ su' = [ctor |-> E.ctor, timeout_ms |-> E.timeout_ms] /\ failed' = FALSE
+           /\ su' = [ctor |-> E.ctor, timeout |-> E.timeout] /\ failed' = FALSE
            /\ UNCHANGED <<m, rx, wire, txd, consumed, nreads, fault>>
 DevEv == /\ IsEvent("dev")
          /\ failed' = (failed \/ ~E.ok)
@@ -65,7 +67,7 @@ DevEv == /\ IsEvent("dev")
 SetupRet ==
     /\ IsEvent("setupret")
     /\ SetupOK([res |-> E.res, port |-> E.final, timeout |-> E.timeout_set], failed)
-    /\ (E.res = "ok" /\ su.ctor = "configure_port" => E.timeout_ms = su.timeout_ms)    \* the caller's value when configured directly
+    /\ (E.res = "ok" /\ su.ctor = "configure_port" => E.timeout = su.timeout)    \* the caller's value when configured directly
     /\ UNCHANGED <<m, rx, wire, txd, consumed, nreads, fault, su, failed>>
 
 Next == PMEv \/ PW \/ PR \/ PMRet \/ SetupEv \/ DevEv \/ SetupRet
